@@ -1442,7 +1442,8 @@ impl Gen {
                 let (k, t) = if self.rng.bool() { (RetKind::Accept, *a) } else { (RetKind::Reject, *r) };
                 self.tag(format!("stmt:{}", if k == RetKind::Accept { "accept" } else { "reject" }));
                 if t == Ty::Unit {
-                    Expr::new(Ty::Unit, EK::Ret(k, None))
+                    let p = self.unit_payload(d);
+                    Expr::new(Ty::Unit, EK::Ret(k, p))
                 } else {
                     // the payload types of a filtermap are inferred from its accept /
                     // reject expressions: they must determine their type themselves
@@ -1453,10 +1454,29 @@ impl Gen {
         }
     }
 
+    /// The payload of `accept` / `reject` on a side of type `()`: nothing, or a call of a
+    /// unit-returning logging host function (`accept out_i64(x)`): the call must happen.
+    fn unit_payload(&mut self, d: u32) -> Option<Box<Expr>> {
+        if self.cfg.no_out || self.rng.bool() {
+            self.tag("verdict:unit-side:bare".into());
+            return None;
+        }
+        self.no_div += 1;
+        let v = self.expr(&Ty::Int(IntTy::I64), d.min(2), true);
+        self.no_div -= 1;
+        self.tag("verdict:unit-side:unit-call-payload".into());
+        Some(Box::new(Expr::new(Ty::Unit, EK::Host("out_i64".into(), vec![v]))))
+    }
+
     /// `accept e` / `reject e` with a self-typed payload
     fn verdict_stmt(&mut self, kind: RetKind, d: u32) -> Expr {
         let Ty::Verdict(a, r) = self.cur_ret.clone() else { unreachable!() };
         let t = if kind == RetKind::Accept { *a } else { *r };
+        if t == Ty::Unit {
+            self.tag(format!("stmt:{}", if kind == RetKind::Accept { "accept" } else { "reject" }));
+            let p = self.unit_payload(d);
+            return Expr::new(Ty::Unit, EK::Ret(kind, p));
+        }
         self.no_div += 1;
         let v = self.expr(&t, d.min(2), false);
         self.no_div -= 1;
@@ -2014,8 +2034,15 @@ impl Gen {
             let is_main = i == nf - 1;
             if is_main {
                 if self.cfg.filtermap_main && self.rng.chance(1, 3) {
+                    // payload types of the two sides: i64 or () (a side without payload)
                     let t = Ty::Int(IntTy::I64);
-                    self.sigs.push(FnSig { params: vec![], ret: Ty::Verdict(Box::new(t.clone()), Box::new(t)), has_fuel: false });
+                    let (a, r) = match self.rng.below(6) {
+                        0 => (Ty::Unit, Ty::Unit),
+                        1 => (t.clone(), Ty::Unit),
+                        2 => (Ty::Unit, t.clone()),
+                        _ => (t.clone(), t),
+                    };
+                    self.sigs.push(FnSig { params: vec![], ret: Ty::Verdict(Box::new(a), Box::new(r)), has_fuel: false });
                 } else {
                     let rets = self.main_ret_types();
                     let ret = rets[self.rng.usize(rets.len())].clone();
